@@ -219,16 +219,24 @@ def rule_units_ops(ctx, py):
     ok = found and all(("self.sys == %s.sys" % u, True) in c for c in found)
     ctx.check(ok, R, f, f._qual, "multiply: self.sys != %s.sys -> raise" % u, "dominates the result",
               "units of different systems are multiplied without the guard")
-    # raiseto: non-integral exponents raise
+    # raiseto: non-integral exponents raise -- for every component, i.e. inside the component loop
     f = meth["raiseto"]
-    rs = [n for n in ast.walk(f) if isinstance(n, ast.If) and any(isinstance(b, ast.Raise) for b in n.body)]
+    lp = [n for n in ast.walk(f) if isinstance(n, ast.For)]
     ok = False
-    for n in rs:
-        t = pyfe.src(n.test).replace(" ", "")
-        if "self.dim[k]*e" in t and "rdim[k]" in t and ("!=0" in t or "!=" in t):
-            ok = True
-    ctx.check(ok, "C05.INTEXP", f, f._qual, "raiseto: non-integral resulting exponent raises", "", "no raise when "
-              "dim*e is not an integer")
+    where = None
+    if len(lp) == 1:
+        k = pyfe.src(lp[0].target)
+        for n in lp[0].body:
+            if isinstance(n, ast.If) and any(isinstance(b, ast.Raise) for b in n.body):
+                t = pyfe.src(n.test).replace(" ", "")
+                if "self.dim[%s]*e" % k in t and "rdim[%s]" % k in t and "!=" in t:
+                    ok = True
+        outside = [n for n in ast.walk(f) if isinstance(n, ast.If) and any(isinstance(b, ast.Raise) for b in n.body)
+                   and n not in lp[0].body]
+        where = outside[0] if outside else None
+    ctx.check(ok, "C05.INTEXP", where or f, f._qual, "raiseto: a non-integral resulting exponent raises, tested for every "
+              "component inside the loop", "", "the integrality test is not made for each component (it is missing or "
+              "outside the component loop): fractional exponents of some base units are silently truncated")
     # __eq__: component-wise, zero exponents ignore the base unit
     f = meth["__eq__"]
     src = pyfe.src(f).replace(" ", "")
